@@ -97,6 +97,64 @@ def harness(ctx):
     ctx.cover("enumerated")
 
 
+def update_on_removal_harness(ctx):
+    """_modify.remove:_update_functions_aux_data(cache, block, next_block) -- from the statement of C06: deleting an entry block promotes
+    the next block only if it is in the SAME function; the block leaves its function; a function that lost all its blocks disappears
+    from all three tables; entries stay a subset of blocks; other functions are untouched.
+    E over: block is an entry or not x the function has other blocks or not x next block is absent / data / code in the same function /
+    code in another function / code in NO function x the real ModifyCache."""
+    import importlib
+    RM = importlib.import_module("gtirb_rewriting._modify.remove")
+    from gtirb_rewriting._modify import make_modify_cache
+    import gtirb_functions
+    from gtirb_test_helpers import add_data_block, add_function
+    is_entry = bool(ctx.choose(2, "block-is-an-entry"))
+    has_others = bool(ctx.choose(2, "function-has-other-blocks"))
+    nk = ["none", "data", "same-function", "other-function", "no-function"][ctx.choose(5, "next-block")]
+    if nk == "same-function" and not has_others:
+        return
+    ir, m = create_test_module(gtirb.Module.FileFormat.ELF, gtirb.Module.ISA.X64)
+    _, bi = add_text_section(m, address=0x1000)
+    first = add_code_block(bi, b"\x90")            # entry of F when `blk` is not
+    blk = add_code_block(bi, b"\x90")
+    nxt = None if nk == "none" else (add_data_block(bi, b"\x00") if nk == "data" else add_code_block(bi, b"\x90"))
+    extra = add_code_block(bi, b"\x90")
+    gblk = add_code_block(bi, b"\xc3")
+    fblocks = {blk}
+    if has_others:
+        fblocks |= {extra} | ({nxt} if nk == "same-function" else set())
+    entry = blk if is_entry else first
+    if not is_entry:
+        if not has_others:
+            return                                   # a function whose only block is not its entry: the entry `first` is another block
+        fblocks.add(first)
+    f = add_function(m, add_symbol(m, "f", entry), entry, fblocks - {entry})
+    gset = {gblk} | ({nxt} if nk == "other-function" else set())
+    g = add_function(m, add_symbol(m, "g", gblk), gblk, gset - {gblk})
+    fl = gtirb_functions.Function.build_functions(m)
+    fb0 = {k: set(v) for k, v in _auxdata.function_blocks.get(m).items()}
+    fe0 = {k: set(v) for k, v in _auxdata.function_entries.get(m).items()}
+    with make_modify_cache(m, fl) as cache:
+        RM._update_functions_aux_data(cache, blk, nxt)
+        cached = dict(cache.functions_by_block)
+    ctx.cover("enumerated")
+    fb, fe, fn = _auxdata.function_blocks.get(m), _auxdata.function_entries.get(m), _auxdata.function_names.get(m)
+    left = fb0[f] - {blk}
+    want_e = (fe0[f] - {blk}) | ({nxt} if (is_entry and nk == "same-function") else set())
+    if left:
+        ok = fb.get(f) == left and fe.get(f) == want_e and f in fn
+    else:
+        ok = f not in fb and f not in fe and f not in fn
+    ctx.prove("update_functions_aux_data/block-leaves-its-function;next-block-promoted-only-within-the-same-function;empty-function-disappears", z3.BoolVal(bool(ok)),
+              note="functionBlocks[f]=%s functionEntries[f]=%s expected blocks=%d entries=%d" % (
+                  None if f not in fb else len(fb[f]), None if f not in fe else len(fe[f]), len(left), len(want_e)))
+    ctx.prove("update_functions_aux_data/entries-are-a-subset-of-blocks", z3.BoolVal(all(fe.get(u, set()) <= fb.get(u, set()) for u in fe)))
+    ctx.prove("update_functions_aux_data/other-function-untouched", z3.BoolVal(fb.get(g) == fb0[g] and fe.get(g) == fe0[g] and g in fn))
+    ctx.prove("update_functions_aux_data/cache-follows-the-table", z3.BoolVal(blk not in cached and all(cached.get(b) == u for u, bs in fb.items() for b in bs)))
+
+
 def jobs(tier="quick", seed=0):
+    yield Job("K/functions_aux/update_on_removal", update_on_removal_harness, kind="E", func="gtirb_rewriting._modify.remove:_update_functions_aux_data",
+              expect_cover=("enumerated",))
     yield Job("K/functions_aux", harness, kind="E", func="gtirb_rewriting._modify.functions:add_function_block_aux/remove_function_block_aux",
               expect_cover=("enumerated",))
